@@ -104,6 +104,8 @@ def run(ctx, col, tier):
     _endpoints.run(ctx, col, ('swcgeom.core.tree', 'swcgeom.core.path', 'swcgeom.core.branch', 'swcgeom.core.node', 'swcgeom.core.tree_utils', 'swcgeom.core.tree_utils_impl', 'swcgeom.core.swc_utils.base', 'swcgeom.core.swc_utils.subtree', 'swcgeom.core.swc_utils.normalizer', 'swcgeom.core.swc_utils.io'))
     from ..rules import stateless as _stateless_memo
     _stateless_memo.run_memo(ctx, col)
+    from .c06 import subtree_order as _subtree_order
+    col.guard(_subtree_order, ctx, col)
     from ..rules import stale as _stale
     _stale.run(ctx, col, ('swcgeom.core.tree_utils', 'swcgeom.core.tree_utils_impl', 'swcgeom.transforms.tree', 'swcgeom.transforms.path', 'swcgeom.transforms.branch_tree'))
     from ..rules import smalllints as _small
